@@ -28,7 +28,8 @@ LEVEL_ASSUMPTIONS = ["field-by-field comparison in this file; CSV files are "
 REQUIRED = {"instance_roundtrips": 300, "packing_roundtrips": 100,
             "gameplan_roundtrips": 100, "ordering_roundtrips": 50,
             "result_tables": 40, "statistics_tables": 20,
-            "tables_with_mixed_optional_columns": 15}
+            "tables_with_mixed_optional_columns": 15,
+            "tables_with_runs_of_one_setup": 8}
 
 
 def plan(tier: str, seed: int):
@@ -282,9 +283,18 @@ def build_records(ctx, n_rec):
             except ValueError:
                 continue
     algos = ["rls", "fea1p1", "rs"][:int(rng.integers(1, 4))]
+    single = bool(rng.integers(3) == 0)   # all records are runs of ONE setup
+    if single:
+        insts = insts[:1]
+        algos = algos[:1]
+    one_obj = str(rng.choice(OBJ))
     # optional-column policy of the table
-    pol = {k: str(rng.choice(["all", "none", "mixed"]))
+    pol = {k: str(rng.choice(["all", "none", "mixed", "mixed-within"]))
            for k in ("max_fes", "max_time", "goal_f", "encoding")}
+    if single:
+        for k in ("max_fes", "max_time", "goal_f"):
+            if rng.integers(2):
+                pol[k] = "mixed-within"
     # within one (algo, inst, objective, encoding) group budgets are constant
     recs = []
     spec = []
@@ -293,13 +303,15 @@ def build_records(ctx, n_rec):
         desc, inst = insts[int(rng.integers(len(insts)))]
         algo = str(rng.choice(algos))
         obj = str(rng.choice(OBJ)) if rng.integers(3) else "binCount"
+        if single:
+            obj = one_obj
 
         def opt(key):
             if pol[key] == "all":
                 return True
             if pol[key] == "none":
                 return False
-            return None
+            return None     # mixed / mixed-within: decided per group first
         gk = (algo, inst.name, obj)
         if gk not in groups:
             g = {}
@@ -311,7 +323,16 @@ def build_records(ctx, n_rec):
             g["mt"] = int(rng.integers(2000, 50000))
             g["goal"] = int(rng.integers(0, 3))
             groups[gk] = g
-        g = groups[gk]
+        g = dict(groups[gk])
+        for key in pol:
+            # runs of one setup may differ, too (e.g. a budget added later);
+            # the statistics of such a group may not be constructible, the
+            # result table must still round-trip
+            if pol[key] == "mixed-within":
+                g[key] = bool(rng.integers(2))
+        if pol["encoding"] == "mixed-within":
+            # the encoding is part of the setup: keep it per group
+            g["encoding"] = groups[gk]["encoding"]
         y = PackingSpace(inst).create()
         perm = wb.gen_perm(rng, desc, "random")
         ImprovedBottomLeftEncoding1(inst).decode(wb.x_array(perm, inst), y)
@@ -334,7 +355,7 @@ def build_records(ctx, n_rec):
     pats = {(s["er"]["encoding"] is None, s["er"]["goal_f"] is None,
              s["er"]["max_fes"] is None, s["er"]["max_time_millis"] is None)
             for s in spec}
-    return recs, spec, len(pats)
+    return recs, spec, len(pats), single
 
 
 def table_case(ctx, n_rec):
@@ -343,7 +364,9 @@ def table_case(ctx, n_rec):
     home = os.environ.get("VERIF_HOME", "/verif")
     d = os.path.join(home, ".work")
     os.makedirs(d, exist_ok=True)
-    recs, spec, npat = build_records(ctx, n_rec)
+    recs, spec, npat, single = build_records(ctx, n_rec)
+    if single:
+        ctx.count("tables_with_runs_of_one_setup")
     case = {"kind": "table", "records": spec}
     path = os.path.join(d, f"c19-{os.getpid()}-r.txt")
     ctx.case()
